@@ -95,7 +95,8 @@ theorem no_dispatch_into_completed_g (srt : Sorter) (sp : Spec) (w : World) (ev 
           · split
             · exact ⟨rfl, rfl, Or.inl rfl⟩
             · split
-              · exact ⟨rfl, rfl, Or.inl rfl⟩
+              · exact ⟨by unfold ids; rw [(checkAffected_tasks sp _ t).1], by rw [(checkAffected_tasks sp _ t).2],
+                  Or.inl (checkAffected_backlog sp _ t)⟩
               · split
                 · exact ⟨rfl, rfl, Or.inl rfl⟩
                 · exact ⟨by simp [ids, setTask_ids], rfl, Or.inl rfl⟩
@@ -208,7 +209,7 @@ theorem backlog_untouched_while_paused_g (srt : Sorter) (sp : Spec) (w : World) 
           · split
             · rfl
             · split
-              · rfl
+              · exact checkAffected_backlog sp _ t
               · split <;> rfl
       | rpcResult t ok =>
         simp only
@@ -378,7 +379,7 @@ theorem no_creation_while_pausedX_g (srt : Sorter) (sp : Spec) (w : World) (ev :
           · split
             · rfl
             · split
-              · rfl
+              · unfold ids; rw [(checkAffected_tasks sp _ t).1]
               · split
                 · rfl
                 · simp [ids, setTask_ids]
